@@ -673,11 +673,16 @@ class Parser:
     def expr_path_segs(self):
         segs = []
         self.accept("::")
+        self._path_targs = None
         while True:
             segs.append(self.ident())
             if self.at("::") and self.peek().text == "<":
                 self.i += 1
+                ta = self.i
                 self.skip_generics()
+                # the turbofish of an expression path is kept as text (`mem::transmute::<u8, State>` -> "<u8,State>")
+                # on the path node (attribute `targs`, only present when there is one), for vocabulary callables
+                self._path_targs = "".join(x.text for x in self.toks[ta:self.i])
             if self.at("::") and self.peek().kind == "ident":
                 self.i += 1
                 continue
@@ -1129,6 +1134,9 @@ class Parser:
                 return N("structlit", segs=segs, fields=fields, base=base)
             except ParseError:
                 self.i = save
+        if getattr(self, "_path_targs", None):
+            ta, self._path_targs = self._path_targs, None
+            return N("path", segs=segs, targs=ta)
         return N("path", segs=segs)
 
     def closure(self):
